@@ -2,7 +2,11 @@ package rules
 
 import (
 	"fmt"
+	"go/constant"
+	"go/types"
+	"regexp"
 	"sort"
+	"strconv"
 	"strings"
 
 	"cachelint/internal/core"
@@ -137,7 +141,7 @@ func c01T1(r *Run, rep *core.Report) {
 		}
 		rep.Check(okAll, "C01.T1", fn(f)+" decides e>0 && now>e", r.P.Pos(f.Pos()), fmt.Sprintf("%d partitions, all equal to 'e > 0 and now > e' (strictly later)", len(paths)), "expiry predicate deviates: "+why)
 	}
-	rep.MinCount("C01.T1", "expiry predicate functions", n, 4)
+	rep.MinCount("C01.T1", "expiry predicate functions", n, 2)
 }
 
 // outputsOf lists the API outputs of a path: (description, term).
@@ -249,6 +253,10 @@ func tableCheck(r *Run, rep *core.Report, rule string, mp *MethodPaths) {
 	got := normTable(mp)
 	want = expandUntested(want)
 	mask := func(method, class, outcome string) string {
+		// expiration(d) of a constant d that is not positive and is not the DefaultExpiration sentinel is 0 - 'never
+		// expires' (the partition C09.X1 checks on the expiration function itself): an item stored with e = 0 directly
+		// is the same store
+		outcome = canonExp(r, outcome)
 		// the first result of Compute when the user's function asks for deletion is not fixed by the
 		// property or the interface comments: don't-care (constrained only by twin agreement, C12)
 		if method == "Compute" && strings.Contains(class, "user=true") {
@@ -328,3 +336,26 @@ func keysB(m map[string]bool) []string {
 }
 
 var _ = ssa.NewConst
+
+var expConstRe = regexp.MustCompile(`opq:Exp\(const:(-?[0-9]+)\)`)
+
+// canonExp rewrites opq:Exp(const:c) to zero for constants c <= 0 other than the DefaultExpiration sentinel.
+func canonExp(r *Run, s string) string {
+	if !strings.Contains(s, "opq:Exp(const:") {
+		return s
+	}
+	sentinel, haveSentinel := int64(0), false
+	if c, ok := r.P.Cache.Pkg.Scope().Lookup("DefaultExpiration").(*types.Const); ok {
+		if v, exact := constant.Int64Val(constant.ToInt(c.Val())); exact {
+			sentinel, haveSentinel = v, true
+		}
+	}
+	return expConstRe.ReplaceAllStringFunc(s, func(m string) string {
+		sub := expConstRe.FindStringSubmatch(m)
+		v, err := strconv.ParseInt(sub[1], 10, 64)
+		if err != nil || v > 0 || !haveSentinel || v == sentinel {
+			return m
+		}
+		return "zero"
+	})
+}
